@@ -685,3 +685,23 @@ pub fn gen_push_ops(rng: &mut Rng, len: usize, count: usize) -> Vec<(usize, crat
     v.sort_by_key(|(p, _)| *p);
     v
 }
+
+
+/// all strings over `alphabet` of length 0..=max_len (small-scope directed sweeps)
+pub fn all_strings(alphabet: &[u8], max_len: usize) -> Vec<Vec<u8>> {
+    let mut out: Vec<Vec<u8>> = vec![Vec::new()];
+    let mut frontier: Vec<Vec<u8>> = vec![Vec::new()];
+    for _ in 0..max_len {
+        let mut next = Vec::with_capacity(frontier.len() * alphabet.len());
+        for f in &frontier {
+            for a in alphabet {
+                let mut v = f.clone();
+                v.push(*a);
+                next.push(v);
+            }
+        }
+        out.extend(next.iter().cloned());
+        frontier = next;
+    }
+    out
+}
